@@ -82,6 +82,9 @@ def gen_server(c, P):
                 c.assume(z3.ULT(r0.e, 0x80))
             # (symbolic byte last: the incremental validator state stays concrete until then)
             items += frame(8, [0x03, 0xE8] + [0x72] * 122 + [r0])
+        elif a == 'trickle':
+            # event-less bytes: a non-final text fragment of 300 bytes (16-bit length form) that arrives byte by byte and never completes
+            items += [0x01, 0x7E, 0x01, 0x2C] + [0x61] * 280
         elif a == 'frag':
             items += frame(2, [c.byte('f%da' % i)], fin=False) + frame(0, [c.byte('f%db' % i)])
         else:
@@ -218,6 +221,7 @@ def run_life(c, P):
             return full[:k]
     w.default_script = HsThenCuts(w, stream_fn, P.get('cuts', 'one'), end=end, silent_waits=P.get('silent_waits', 0))
     w.n_addrs = P.get('n_addrs', 1)
+    w.arrival_gap = P.get('arrival_gap', 0)
     if P.get('fault'):
         F = P['fault']
         w.fault_hook = env.SymFaults(F['ops'], F.get('kinds', ['oserror']), F.get('max', 1), F.get('skip'), sticky=F.get('sticky', ()))
@@ -243,6 +247,8 @@ def run_life(c, P):
         # rarely used values of the connect() options (a solver variable picks the set)
         opts = P['connect_options']
         ck.update(opts[c.choose(len(opts), 'connect_opts')])
+    w.notes['ck'] = dict(ck)
+    w.notes['server_desc'] = list(desc)
     if P.get('record_selector'):
         # observe selector.close() through the documented extension points (session_class / _selector_cls)
         from lomond.session import WebsocketSession
@@ -403,11 +409,13 @@ KNOWN = AFTER_READY + ('connecting', 'connect_fail', 'connected', 'ready', 'reje
 def check_c07(c, w, rec, app, P):
     names = rec.names()
     cls = set()
+    if 'trickle' in w.notes.get('server_desc', ()):
+        cls.add('trickled')
     if rec.exc is not None:
         c.fail('C07: exception escaped the event iterator: %r (events %s)' % (rec.exc, names))
     if rec.budget is not None:
         silent = w.default_script.end == 'silence'
-        ck = P.get('connect', {})
+        ck = w.notes.get('ck') or P.get('connect', {})
         # (a Close frame was sent - by the application or as the echo of a server Close - so close_timeout runs)
         armed = (ck.get('close_timeout') and (any(x['action'] in ('close', 'close_default') for x in app.calls) or 'closing' in names)) \
             or ck.get('ping_timeout')
